@@ -2,8 +2,8 @@
 from .. import gen
 from . import common
 
-SPEC_THEOREM = 'Props/C12: contains_t reflexive, transitive, scalar containment = compare equality'
-TRUSTED = ['Coq 8.16.1 kernel', 'translator', 'extraction + OCaml driver', 'Rust harness', 'model Contain.v (mirror of contains_value; contains_jsonb tied by correspondence)']
+SPEC_THEOREM = 'Props/C12: contains_t reflexive, transitive, scalar containment = compare equality; C12_contains_bytes: contains_w (enc a) (enc b) = Ok (contains_t a b) for the offset-faithful walker ContainWalk.v'
+TRUSTED = ['Coq 8.16.1 kernel', 'translator', 'extraction + OCaml driver', 'Rust harness', 'model Contain.v (mirror of contains_value); ContainWalk.v (offset-faithful contains_jsonb / array_contains / scalar_payload_eq, refinement proved on encodings, tied to the code by correspondence including corrupt buffers)']
 ASSUMPTIONS = ['inputs are canonical encodings of well-formed values']
 RULE = 'pairs where b is derived from a (drop members/elements, reorder, duplicate, nest deeper/shallower, re-type numbers 1 / 1.0 / signed / unsigned) plus unrelated pairs; each in all four text/binary argument forms for finite documents; chains a>=b>=c for transitivity; non-trivial = contains is true for a != b'
 
@@ -94,6 +94,47 @@ def generate(ctx):
                     i1 = ctx.add('contains %s %s' % (gen.hexarg(gen.enc(a)), gen.hexarg(gen.enc(b)))).id
                     i2 = ctx.add('compare %s %s' % (gen.hexarg(gen.enc(a)), gen.hexarg(gen.enc(b)))).id
                     ctx.pairs.append((a, b, (i1, i2)))
+    malformed(ctx)
+
+
+def mutants(ctx, e, n=14):
+    """prefixes and single-byte mutations of an encoding; header counts stay small (byte 0 only switches the container
+    type, byte 1 is left alone) so that no Rust-side allocation is driven by a corrupted count"""
+    r = ctx.rng
+    out = [e[:i] for i in range(len(e))] if len(e) <= 24 else [e[:r.randrange(len(e))] for _ in range(8)]
+    for _ in range(n):
+        i = r.randrange(len(e))
+        if i == 0:
+            nb = r.choice([0x80, 0x40, 0x20, 0x00, 0x60])
+        elif i == 1:
+            continue
+        else:
+            nb = r.choice([0, 1, 2, 3, 4, 8, 0x10, 0x20, 0x30, 0x40, 0x50, 0x60, 0x7f, 0x80, 0xff, e[i] ^ 1, e[i] ^ 0x10, (e[i] + 1) & 0xff])
+        out.append(e[:i] + bytes([nb]) + e[i + 1:])
+    return out
+
+
+def malformed(ctx):
+    # contains_jsonb on buffers that are NOT valid encodings: C12 says nothing about them, the offset-faithful model
+    # (ContainWalk.v) does -- value, swallowed error (false) or panic; this stream only feeds the correspondence tie
+    r = ctx.rng
+    ctx.open_classes.add('skipped-allocation')
+    small = [(a, b) for a, b, cid in ctx.pairs if not isinstance(cid, tuple) and 8 <= len(gen.enc(a)) <= 90 and len(gen.enc(b)) <= 90]
+    for a, b in r.sample(small, min(len(small), ctx.scale(160, 4000))):
+        ea, eb = gen.enc(a), gen.enc(b)
+        for m in mutants(ctx, ea):
+            ctx.add('contains %s %s' % (gen.hexarg(m), gen.hexarg(eb)), kind='malformed')
+        for m in mutants(ctx, eb):
+            ctx.add('contains %s %s' % (gen.hexarg(ea), gen.hexarg(m)), kind='malformed')
+        for _ in range(4):
+            ctx.add('contains %s %s' % (gen.hexarg(r.choice(mutants(ctx, ea, 6))), gen.hexarg(r.choice(mutants(ctx, eb, 6)))), kind='malformed')
+
+
+def classify(ctx, c, io, mo):
+    # the harness process died on a corrupt buffer (allocation driven by a corrupted count): not judged
+    if c.kind == 'malformed' and io.startswith('abort:'):
+        return 'skipped-allocation'
+    return None
 
 
 def judge(ctx):
